@@ -151,7 +151,7 @@ contract(
         f"all({MH('self','g','relative_path')} is None or all(e.hash_format in result for e in {MH('self','g','relative_path')}.hash_entries) for g in range(len(self.hash_lists)))",
         "all(result[a] != result[b] for a in range(len(result)) for b in range(a))",
     ],
-    exit_lemmas=[wit("len(self.hash_lists)").replace("hash_formats", "result")],
+    exit_asserts=[wit("len(self.hash_lists)").replace("hash_formats", "result")],
     loops={
         0: Loop(
             invariant=[
